@@ -3,9 +3,59 @@ from ..runner import EngineSpec, PropSpec
 from .. import gen_pool
 from . import register
 
+def gen(rng, n, tier):
+    """the pool histories, plus a few runs of the transaction cache in front of the pool (tx_cache.go): n arrivals, set size k, now
+    and then a nil transaction among them"""
+    from ..core import History
+    hs = gen_pool.gen(rng, n, tier)
+    for _ in range(3 if tier == "quick" else 12):
+        ops = []
+        for _ in range(3):
+            k = rng.choice([0, 1, 2, 3, 5, 10, 64])
+            kk = k or 10
+            m = rng.choice([0, 1, kk - 1, kk, kk + 1, 2 * kk, 2 * kk + 1, rng.randrange(0, 5 * kk + 2)])
+            op = f"txcache size={k} n={m}"
+            if m > 1 and rng.random() < 0.3:
+                op += f" nil={rng.randrange(0, m)}"
+            ops.append(op)
+        hs.append(History(ops, tags={"txcache"}))
+    return hs
+
+
+def mon(h, obs):
+    import re
+    from ..runner import Hit
+    hits = gen_pool.mon_c19(h, obs) if not h.ops or not h.ops[0].startswith("txcache") else []
+    for op, o in zip(h.ops, obs):
+        if not op.startswith("txcache"):
+            continue
+        kv = dict(w.split("=") for w in op.split()[1:])
+        k = int(kv["size"]) or 10
+        m = int(kv["n"]) - (1 if "nil" in kv else 0)
+        mm = re.match(r"^sets=\[([\d ]*)\] order=(\d)( ## .*)?$", o or "")
+        if not mm:
+            hits.append(Hit("C19/txcache/bad-result", f"`{op}` -> {(o or '')[:120]}", detail=op))
+            continue
+        sizes = [int(x) for x in mm.group(1).split()]
+        if sum(sizes) != m:
+            hits.append(Hit("C19/txcache/transactions-lost-or-duplicated", f"`{op}`: {m} transactions went in, the posted sets hold {sum(sizes)} ({sizes[:20]})", detail=op))
+        elif mm.group(2) != "1":
+            hits.append(Hit("C19/txcache/order-not-kept", f"`{op}`: the posted sets do not keep the arrival order", detail=op))
+        elif any(x > k or x < 1 for x in sizes):
+            hits.append(Hit("C19/txcache/set-size", f"`{op}`: a posted set is empty or larger than the set size {k}: {sizes[:20]}", detail=op))
+    return hits
+
+
+def tags(h, obs):
+    if h.ops and h.ops[0].startswith("txcache"):
+        return {"txcache:" + ("tick" if any(o and not o.startswith("sets=[]") for o in obs) else "empty")}
+    return gen_pool.tags_pool(h, obs)
+
+
 register(PropSpec(
     "C19",
-    engines=[EngineSpec("pool", gen_pool.gen, gen_pool.mon_c19, gen_pool.tags_pool, quick_n=300, thorough_n=20000)],
+    engines=[EngineSpec("pool", gen, mon, tags, quick_n=300, thorough_n=20000)],
     rule="pool engine, same histories as C18, observed after every step (HasPendingRequest, IsPoolFull, GetPendingNonceByAccount of every account, GetTransaction of "
-         "every hash ever given, sizes of the internal indices) and followed by 8 rounds of GenerateBlock + commit; non-trivial = at least one batch; distinct = distinct op list",
+         "every hash ever given, sizes of the internal indices) and followed by 8 rounds of GenerateBlock + commit; non-trivial = at least one batch; distinct = distinct op list. "
+         "Plus the real TxCache in front of the pool (ListenEvent goroutine, set size k, 40 ms tick) fed n transactions: the posted sets hold every transaction once, in arrival order, none larger than k",
 ))
